@@ -8,8 +8,8 @@ decimal text, a blank operand is 0 in arithmetic, and operands come from workboo
 
 Outside the contract (skipped, not counted; the statement has no clause): arithmetic on text, division by zero,
 comparison of operands of different kinds, booleans / blanks under &, numeric-looking texts whose text order and
-numeric order differ (C10's region), near-ties of fractional numbers.  The text form of a fractional / float-typed
-number under & belongs to C17; a disagreement that is explained by it alone is reported under one separate key.
+numeric order differ (C10's region), near-ties of fractional numbers.  The exact spelling of a number joined by &
+belongs to C17; a result whose joined numbers have the right values but another spelling is reported under one separate key.
 
 Failure keys
   C01.group.<classes>   wrong value / run-time exception; <classes> = the operator classes (unary pct mul add amp cmp
@@ -181,16 +181,20 @@ def render(tree):
 
 
 class Num:
-    """a number: exact rational value, the Python-typed value computed the same way (only used to recognise the
-    C17 text-form site), and the largest magnitude met on the way (scale of the tolerance)"""
-    __slots__ = ('fr', 'py', 'mag')
+    """a number: exact rational value and the largest magnitude met on the way (scale of the tolerance)"""
+    __slots__ = ('fr', 'mag')
 
-    def __init__(self, fr, py, mag=None):
-        self.fr, self.py = fr, py
+    def __init__(self, fr, mag=None):
+        self.fr = fr
         self.mag = max(abs(fr), mag or 0)
 
     def __repr__(self):
         return f'Num({float(self.fr)!r})'
+
+
+class Cat(list):
+    """result of & in 'parts' mode: the joined pieces in order, texts as str, numbers as Num (their exact text form
+    is C17's business, so a number piece is later matched by value)"""
 
 
 def lift(v):
@@ -200,7 +204,7 @@ def lift(v):
     if isinstance(v, (bool, str)):
         return v
     if isinstance(v, (int, float)):
-        return Num(Fraction(v), v)
+        return Num(Fraction(v))
     raise Out('operand kind')
 
 
@@ -208,18 +212,19 @@ def as_num(v):
     if isinstance(v, Num):
         return v
     if isinstance(v, bool):
-        return Num(Fraction(int(v)), int(v))
+        return Num(Fraction(int(v)))
     if v is BLANK:
-        return Num(Fraction(0), 0)            # "a blank operand counts as 0 in arithmetic"
+        return Num(Fraction(0))               # "a blank operand counts as 0 in arithmetic"
     raise Out('arithmetic on text')
 
 
-def text_form(v, mode):
+def text_form(v):
+    """Excel's text form of an & operand (whole numbers without a fraction, others with 15 significant digits)"""
+    if isinstance(v, Cat):
+        return ''.join(text_form(x) for x in v)
     if isinstance(v, str):
         return v
     if isinstance(v, Num):
-        if mode == 'python':
-            return str(v.py)
         if v.fr.denominator == 1:
             if abs(v.fr) >= 10 ** 15:
                 raise Out('text form of a huge number')
@@ -239,6 +244,11 @@ def _numeric_text(s):
 
 
 def compare(op, a, b):
+    if isinstance(a, Cat):
+        a = text_form(a)
+    if isinstance(b, Cat):
+        b = text_form(b)
+
     def kind(v):
         return 'num' if isinstance(v, Num) else 'bool' if isinstance(v, bool) else 'text' if isinstance(v, str) else 'blank'
     ka, kb = kind(a), kind(b)
@@ -273,14 +283,13 @@ def compare(op, a, b):
 
 
 def spec_eval(tree, opd=None, env=None, sheet=None, mode='excel'):
-    """value Excel defines for the tree; opd = values of the @ placeholders, env = {(sheet, col, row): value}"""
+    """value Excel defines for the tree; opd = values of the @ placeholders, env = {(sheet, col, row): value};
+    mode 'parts' keeps the pieces of a concatenation apart (Cat) instead of joining their Excel text forms"""
     k = tree[0]
     if k == 'opd':
         return lift(opd[tree[1]])
     if k == 'num':
-        txt = tree[1]
-        py = float(txt) if ('.' in txt or 'e' in txt.lower()) else int(txt)
-        return Num(Fraction(float(txt)), py)          # the double nearest to the decimal text
+        return Num(Fraction(float(tree[1])))          # the double nearest to the decimal text
     if k == 'str':
         return tree[1]
     if k == 'bool':
@@ -290,36 +299,36 @@ def spec_eval(tree, opd=None, env=None, sheet=None, mode='excel'):
     if k == 'par':
         return spec_eval(tree[1], opd, env, sheet, mode)
     if k == 'un':
-        v = as_num(spec_eval(tree[2], opd, env, sheet, mode))
-        return Num(-v.fr, -v.py, v.mag) if tree[1] == '-' else Num(v.fr, +v.py, v.mag)
+        v = spec_eval(tree[2], opd, env, sheet, mode)
+        if isinstance(v, Cat):
+            raise Out('arithmetic on text')
+        v = as_num(v)
+        return Num(-v.fr, v.mag) if tree[1] == '-' else Num(v.fr, v.mag)
     if k == 'pct':
-        v = as_num(spec_eval(tree[1], opd, env, sheet, mode))
-        try:
-            py = float('%.15g' % (v.py / 100))          # C16: x% = x/100 to 15 significant digits
-        except OverflowError:
-            raise Out('overflow')
-        return Num(v.fr / 100, py, v.mag)
+        v = spec_eval(tree[1], opd, env, sheet, mode)
+        if isinstance(v, Cat):
+            raise Out('arithmetic on text')
+        v = as_num(v)
+        return Num(v.fr / 100, v.mag)                 # C16: x/100 (to 15 significant digits; inside the tolerance)
     op = tree[1]
     a = spec_eval(tree[2], opd, env, sheet, mode)
     b = spec_eval(tree[3], opd, env, sheet, mode)
     if op in ('+', '-', '*', '/'):
+        if isinstance(a, Cat) or isinstance(b, Cat):
+            raise Out('arithmetic on text')
         a, b = as_num(a), as_num(b)
         if op == '/' and b.fr == 0:
             raise Out('division by zero')
-        try:
-            if op == '+':
-                fr, py = a.fr + b.fr, a.py + b.py
-            elif op == '-':
-                fr, py = a.fr - b.fr, a.py - b.py
-            elif op == '*':
-                fr, py = a.fr * b.fr, a.py * b.py
-            else:
-                fr, py = a.fr / b.fr, a.py / b.py
-        except (OverflowError, ZeroDivisionError):
-            raise Out('overflow')
-        return Num(fr, py, max(a.mag, b.mag))
+        fr = a.fr + b.fr if op == '+' else a.fr - b.fr if op == '-' else a.fr * b.fr if op == '*' else a.fr / b.fr
+        return Num(fr, max(a.mag, b.mag))
     if op == '&':
-        return text_form(a, mode) + text_form(b, mode)
+        if mode == 'parts':
+            out = Cat()
+            for v in (a, b):
+                text_form(v)                          # raises Out for booleans / blanks / huge numbers
+                out.extend(v if isinstance(v, Cat) else [v])
+            return out
+        return text_form(a) + text_form(b)
     return compare(op, a, b)
 
 
@@ -335,12 +344,55 @@ def agrees(obs, exp):
     if isinstance(exp, str):
         return isinstance(obs, str) and obs == exp
     if exp is BLANK:
-        exp = Num(Fraction(0), 0)
+        exp = Num(Fraction(0))
     if isinstance(obs, (int, float)):
         if isinstance(obs, float) and (math.isnan(obs) or math.isinf(obs)):
             return False
         return abs(Fraction(obs) - exp.fr) <= TOL * max(1, exp.mag)
     return False
+
+
+_NUMTXT = re.compile(r'-?[0-9]+(?:\.[0-9]+)?(?:[eE][-+]?[0-9]+)?')
+
+
+def joined_by_value(obs, cat):
+    """obs is the concatenation `cat` when every number piece is allowed any decimal spelling of (nearly) its value"""
+    if not isinstance(obs, str) or not isinstance(cat, Cat):
+        return False
+
+    def match(i, pos):
+        if i == len(cat):
+            return pos == len(obs)
+        piece = cat[i]
+        if isinstance(piece, str):
+            return obs.startswith(piece, pos) and match(i + 1, pos + len(piece))
+        m = _NUMTXT.match(obs, pos)
+        if not m:
+            return False
+        for end in range(m.end(), pos, -1):                 # every prefix that is itself a number spelling
+            txt = obs[pos:end]
+            if _NUMTXT.fullmatch(txt) and abs(Fraction(txt) - piece.fr) <= TOL * 100 * max(1, piece.mag) and match(i + 1, end):
+                return True
+        return False
+    return match(0, 0)
+
+
+def verdict(obs, tree, opd=None, env=None, sheet=None):
+    """('out', None) | ('ok', exp) | ('textform', exp) | ('bad', exp): textform = right up to the spelling of the
+    numbers joined by & (C17's clause, reported under one key)"""
+    try:
+        exp = spec_eval(tree, opd, env, sheet)
+    except Out:
+        return 'out', None
+    if agrees(obs, exp):
+        return 'ok', exp
+    if isinstance(exp, str) and isinstance(obs, str):
+        try:
+            if joined_by_value(obs, spec_eval(tree, opd, env, sheet, mode='parts')):
+                return 'textform', exp
+        except Out:
+            pass
+    return 'bad', exp
 
 
 def show(v):
@@ -596,7 +648,7 @@ def override_rounds(shape, tree, k):
 # =====================================================================================================================
 # 4. running shapes through the real pipeline (Parser -> generated class -> Executor)
 # =====================================================================================================================
-def instantiate(shape, row, style=0):
+def instantiate(shape, row):
     i = [0]
 
     def sub(_):
@@ -649,21 +701,15 @@ def _run_rows(items, rounds=True):
             env = {(SHEETS[si], COLS[j], row): vals[j] for j in range(k)}
             res = results[shape]
             try:
-                exp = spec_eval(ftree, env=env, sheet=SHEETS[si])
+                spec_eval(ftree, env=env, sheet=SHEETS[si])
             except Out:
                 return
             got = lib.call_catch(ex.get_cell, Cell(si, FCOL, row - 1))
             got = got if isinstance(got, codec.Raised) else got.value
             res['evaluations'] += 1
-            if agrees(got, exp):
+            site, exp = verdict(got, ftree, env=env, sheet=SHEETS[si])
+            if site == 'ok':
                 return
-            site = 'bad'
-            try:
-                alt = spec_eval(ftree, env=env, sheet=SHEETS[si], mode='python')
-                if agrees(got, alt) or (isinstance(got, str) and isinstance(alt, str) and _NEGZERO.sub('0.0', got) == _NEGZERO.sub('0.0', alt)):
-                    site = 'textform'
-            except Out:
-                pass
             if res['status'] in ('ok', 'textform') and (site == 'bad' or res['status'] == 'ok'):
                 res['status'] = site
                 res['detail'] = {'formula': formula, 'sheet': SHEETS[si], 'mode': label,
@@ -694,9 +740,6 @@ def _run_rows(items, rounds=True):
             if res['evaluations'] == 0:
                 res['status'] = 'skip'
     return results
-
-
-_NEGZERO = re.compile(r'-0\.0(?![0-9])')          # str(-0.0): a value-equal regrouping such as -(a*b) seen through &
 
 
 class _Rejected(Exception):
@@ -857,6 +900,16 @@ def classify(results, evaluate=run_shapes):
     return {s: keys[s] for s in failing}
 
 
+def hereditarily_ok(shape, results, memo):
+    """the formula and everything it reduces to was found right by the grouping sweep (a comparison can hide a wrong
+    grouping of its operand, e.g. a<-b+c, because its value is one bit)"""
+    if shape not in memo:
+        r = results.get(shape)
+        memo[shape] = r is not None and r['status'] in ('ok', 'skip', 'textform') and \
+            all(hereditarily_ok(x, results, memo) for x in reductions(shape))
+    return memo[shape]
+
+
 def _failures_from(results, keys, limit=25):
     """one failure per key; the witness is the minimal formula itself when it was evaluated"""
     by_key = {}
@@ -880,8 +933,8 @@ def _failures_from(results, keys, limit=25):
         d = results[s]['detail']
         fails.append({'key': 'C01.concat.float_text_form',
                       'what': f"{d['formula']} [{d['mode']}, sheet {d['sheet']}, operands {d['operands']}] -> {d['observed']}, "
-                              f"expected {d['expected']} (grouping right; a whole-valued or 16-17 digit float is joined in its "
-                              f"Python text form); emitted: {d['emitted']}; {len(text)} formulas",
+                              f"expected {d['expected']} (grouping right: every joined number has the right value, but not Excel's "
+                              f"text form - 15 significant digits, no trailing .0); emitted: {d['emitted']}; {len(text)} formulas",
                       'replay': {'kind': 'shape', 'shape': s, 'row': results[s]['row']}})
     return fails[:limit + 15]
 
@@ -1118,25 +1171,18 @@ def check_literals(tier, seed, known=None):
     missing = sorted({sh for sh in shape_of.values() if sh not in known})
     if missing:
         known.update(run_shapes(missing))
+    memo = {}
     for t in ctx:
-        if known[shape_of[t]]['status'] in ('bad', 'reject'):
+        if not hereditarily_ok(shape_of[t], known, memo):
             continue                                   # this operator mix is already reported by the grouping checks
         tree = parse(t)
-        try:
-            exp = spec_eval(tree)
-        except Out:
+        site, exp = verdict(got2[t], tree)
+        if site == 'out':
             continue
         n_ctx += 1
-        if not agrees(got2[t], exp):
-            site = 'bad'
-            try:
-                if agrees(got2[t], spec_eval(tree, mode='python')):
-                    site = 'text'
-            except Out:
-                pass
-            if site == 'bad':
-                ctx_seen.setdefault('C01.literal.in_context.' + skeleton(re.sub(r'\d+(\.\d+)?(e-?\d+)?', '@', t)), []).append(
-                    (t, show(got2[t]), show(exp)))
+        if site == 'bad':
+            ctx_seen.setdefault('C01.literal.in_context.' + skeleton(render(_abstract(tree))), []).append(
+                (t, show(got2[t]), show(exp)))
     for k in sorted(ctx_seen):
         t, g, e = min(ctx_seen[k], key=lambda x: (len(x[0]), x[0]))
         fails.append({'key': k, 'what': f'={t} -> {g}, expected {e} ({len(ctx_seen[k])} formulas)',
@@ -1236,12 +1282,11 @@ _SRC_TXT = ['"ab"', '"c"', '"abc"', '"b"', '"ca"', '"a"', '"bc"', '"d"']
 
 
 def _source_variants(shape):
-    """{variant: (formula text, cells [[sheet, col, row, value]], note)} for one shape; operands by position"""
+    """(spec tree, number of operands, salt, wanted kind per operand) of one shape"""
     tree = parse(shape)
     k = shape.count('@')
     salt = zlib.crc32(shape.encode())
-    want = _wanted_kinds(tree, k, salt)
-    return tree, k, salt, want
+    return tree, k, salt, _wanted_kinds(tree, k, salt)
 
 
 def _source_worker(args):
@@ -1306,29 +1351,18 @@ def _source_worker(args):
                 got = lib.call_catch(ex.get_cell, Cell(sheet, c, r))
                 return got if isinstance(got, codec.Raised) else got.value
 
-            def expect_positional(shape, vals_):
-                return spec_eval(parse(shape), opd=vals_)
-
             def one(shape, variant, vals_, label):
                 nonlocal evals
                 row = rows[shape]
+                tree_, opd_ = (parse(plan[shape]['literal']), None) if variant == 'literal' else (parse(shape), vals_)
                 try:
-                    if variant == 'literal':
-                        exp = spec_eval(parse(plan[shape]['literal']))
-                    else:
-                        exp = expect_positional(shape, vals_)
+                    spec_eval(tree_, opd=opd_)
                 except Out:
                     return
                 got = val(0, vcol[variant] - 1, row - 1)
                 evals += 1
-                if not agrees(got, exp):
-                    try:
-                        alt = spec_eval(parse(plan[shape]['literal']), mode='python') if variant == 'literal' else \
-                            spec_eval(parse(shape), opd=vals_, mode='python')
-                        if agrees(got, alt):
-                            return
-                    except Out:
-                        pass
+                site, exp = verdict(got, tree_, opd=opd_)
+                if site == 'bad':
                     record(f'C01.source.{variant}', (shape, f'={plan[shape][variant]} [{label}; operand values {[_plain(v) for v in (vals_ or [])]}] '
                                                      f'-> {show(got)}, expected {show(exp)}; emitted: '
                                                      f'{_emitted(p.text, 0, vcol[variant] - 1, row - 1)}'))
@@ -1423,12 +1457,7 @@ def _entry_worker(args):
                         ex = Executor().set_executed_class(class_object=cls)
                         got = lib.call_catch(ex.get_cell, Cell('P', 'I', str(i + 1)))
                         got = got if isinstance(got, codec.Raised) else got.value
-                if not agrees(got, exp):
-                    try:
-                        if agrees(got, spec_eval(parse(sh), opd=vals, mode='python')):
-                            continue
-                    except Out:
-                        pass
+                if verdict(got, parse(sh), opd=vals)[0] == 'bad':
                     fails.setdefault('entry', []).append((sh, f'{instantiate(sh, i + 1)} translated from the entry cell (workbook {b}, '
                                                               f're-used Parser) -> {show(got)}, expected {show(exp)}'))
     return fails, evals
@@ -1439,7 +1468,8 @@ def check_sources(tier, known, seed):
     formula that is wrong there is reported there, so only formulas with status ok are used here."""
     t0 = time.time()
     E = enumerate_shapes(5 if tier == 'quick' else 6)
-    shapes = [s for n in sorted(E) for s in E[n] if known.get(s, {}).get('status') == 'ok']
+    memo = {}
+    shapes = [s for n in sorted(E) for s in E[n] if known.get(s, {}).get('status') == 'ok' and hereditarily_ok(s, known, memo)]
     chunks = [(shapes[i:i + 40], tier) for i in range(0, len(shapes), 40)]
     fails, evals = {}, 0
     for f, e in _pmap(_source_worker, chunks):
@@ -1460,7 +1490,7 @@ def check_sources(tier, known, seed):
         out.append({'key': k, 'what': text + f' ({len(fails[k])} cases)', 'replay': {'kind': 'source', 'shape': shape}})
     return {'name': 'C01.monitor.operand_sources',
             'bound': f'the {len(shapes)} formulas with <= {5 if tier == "quick" else 6} tokens that the grouping sweep found '
-                     f'right, each with its operands supplied as (1) number / text / TRUE-FALSE literals in the text, (2) $A$1 '
+                     f'right together with everything they reduce to, each with its operands supplied as (1) number / text / TRUE-FALSE literals in the text, (2) $A$1 '
                      f'/ A$1 / $A1 references, (3) references to a quoted other sheet at rows > 100, (4) formula cells on a '
                      f'third sheet, later overridden by constants, (5) cells beyond the used range (AB, AAA, XFD columns, rows '
                      f'> 1000): blank, then overridden; plus {len(ent)} of them translated from the entry cell with one '
